@@ -99,6 +99,9 @@ func (e *evictorProxy) Evict(ctx context.Context, pod *corev1.Pod, opts framewor
 	if len(e.handle.evictPlugins) == 0 {
 		panic("No Evictor plugin is registered in the frameworkImpl.")
 	}
+	// every caller of frameworkImpl.Evictor() gets its own proxy, so the lock lives in the shared handle
+	e.handle.evictLock.Lock()
+	defer e.handle.evictLock.Unlock()
 	if !e.AllowEvict(pod) {
 		return false
 	}
